@@ -392,7 +392,7 @@ class DocstringParser(AbstractDocstringParser):
         node_qname_parts = qname.split(".")
         griffe_node = self.griffe_build
         is_root_skipped = False
-        for part in node_qname_parts:
+        for index, part in enumerate(node_qname_parts):
             # The qualified name starts with the name of the package itself. Only that part is skipped, a module or a
             # function may be named like its parent ("pkg/pkg.py", "gadget.py" with "def gadget")
             if not is_root_skipped and griffe_node.name == part:
@@ -407,7 +407,7 @@ class DocstringParser(AbstractDocstringParser):
                 griffe_node = griffe_node.functions[part]
             elif part in griffe_node.attributes:
                 griffe_node = griffe_node.attributes[part]
-            elif griffe_node.is_class or not griffe_node.is_package:
+            elif griffe_node.is_class or not griffe_node.is_package or index == len(node_qname_parts) - 1:
                 # A member the docstring library does not list (a missing constructor, a method that consists of
                 # overloads only, a member of a class whose name is taken by a submodule) has no docstring there
                 return None
